@@ -435,10 +435,23 @@ variable [Zero α] [One α] [Add α] [Mul α] [Neg α] [Sub α]
 def canZeros (shape : List Nat) : Except Err (Ten α) := mkCan (shape.map (fun n => Mat.zeros n 0))
 def canOnes (shape : List Nat) : Except Err (Ten α) := mkCan (shape.map (fun n => Mat.ones n 1))
 
-/-- `np.fill_diagonal(np.zeros(d*(R,)), 1.0)`; needs `d ≥ 2` (`ValueError` otherwise) -/
+/-- the identity core built in `TuckerTensor.from_tensor` (895-899, after fix 9307d65):
+`X[:] = 1.0` for one axis, `np.fill_diagonal(np.zeros(d*(R,)), 1.0)` for `d ≥ 2`
+(0-dimensional: `ValueError` from `fill_diagonal`) -/
 def diagCore (d R : Nat) : Except Err (Full α) :=
+  if d = 0 then .error .value
+  else if d = 1 then .ok (Full.ofFn [R] (fun _ => 1))
+  else .ok (Full.ofFn (List.replicate d R) (fun I => if I.all (fun i => i = I.headD 0) then 1 else 0))
+
+/-- the core as coded before fix 9307d65: `np.fill_diagonal` needs `d ≥ 2` (`ValueError` otherwise).
+Only used by the negation witness `from_tensor_order1_raises`. -/
+def diagCoreAsCoded (d R : Nat) : Except Err (Full α) :=
   if d < 2 then .error .value
   else .ok (Full.ofFn (List.replicate d R) (fun I => if I.all (fun i => i = I.headD 0) then 1 else 0))
+
+/-- Canonical → Tucker as coded before fix 9307d65 -/
+def tuckerFromCanAsCoded (Xs : List (Mat α)) : Except Err (Ten α) := do
+  let X ← diagCoreAsCoded Xs.length (canR Xs); mkTucker Xs X
 
 /-- `TuckerTensor.from_tensor(A)` (890-902) -/
 def tuckerFromTensor : Ten α → Except Err (Ten α)
@@ -535,21 +548,24 @@ def Ten.sub : Ten α → Ten α → Except Err (Ten α)
 /-- Python `seq[i]` position for a possibly negative `i` -/
 def pyPos (n : Nat) (i : Int) : Except Err Nat := intIndex n i
 
-/-- the common prologue of both `squeeze` methods (816-824 / 1002-1010): default axes, or
-check that every given axis (negative values wrap in `self.shape[i]`) is a singleton -/
-def squeezeAxes (shape : List Nat) (axis : Option (List Int)) : Except Err (List Int) :=
+/-- the common prologue of both `squeeze` methods (816-825 / 1006-1015): default axes, or
+normalise the given axes with `range(ndim)[i]` (fix 303a07a; `IndexError` when out of range) and
+check that each is a singleton.  `asCoded = true` is the behaviour before the fix: the raw,
+possibly negative, axis values are used further on (negation witness only). -/
+def squeezeAxes (asCoded : Bool) (shape : List Nat) (axis : Option (List Int)) : Except Err (List Int) :=
   match axis with
   | none => .ok ((List.range shape.length).filter (fun i => shape.getD i 0 = 1) |>.map Int.ofNat)
   | some ax => do
       let pos ← ax.mapM (pyPos shape.length)
-      if pos.all (fun p => shape.getD p 0 = 1) then .ok ax else .error .value
+      if pos.all (fun p => shape.getD p 0 = 1) then .ok (if asCoded then ax else pos.map Int.ofNat)
+      else .error .value
 
-/-- `CanonicalTensor.squeeze` (816-838), literally: `remaining` is computed from the raw axis
-values, the factors are fetched with Python (wrapping) indexing -/
-def canSqueeze (Xs : List (Mat α)) (axis : Option (List Int)) : Except Err (Res α) := do
+/-- `CanonicalTensor.squeeze` (816-839), literally: `remaining` is computed from the axis
+values returned by the prologue, the factors are fetched with Python (wrapping) indexing -/
+def canSqueeze (Xs : List (Mat α)) (axis : Option (List Int)) (asCoded : Bool := false) : Except Err (Res α) := do
   let shape := Xs.map (·.rows)
   let d := Xs.length
-  let ax ← squeezeAxes shape axis
+  let ax ← squeezeAxes asCoded shape axis
   if ax.length = 0 then pure (.t (.can Xs))
   else if ax.length = d then pure (.s (canEntry Xs (List.replicate d 0)))
   else
@@ -571,10 +587,10 @@ def canGetitem (Xs : List (Mat α)) (I : List PyIndex) : Except Err (Res α) := 
   | _ => .error .type
 
 /-- `TuckerTensor.squeeze` (1002-1021) -/
-def tuckerSqueeze (Us : List (Mat α)) (X : Full α) (axis : Option (List Int)) : Except Err (Res α) := do
+def tuckerSqueeze (Us : List (Mat α)) (X : Full α) (axis : Option (List Int)) (asCoded : Bool := false) : Except Err (Res α) := do
   let shape := Us.map (·.rows)
   let d := Us.length
-  let ax ← squeezeAxes shape axis
+  let ax ← squeezeAxes asCoded shape axis
   if ax.length = 0 then pure (.t (.tucker Us X))
   else if ax.length = d then pure (.s (tuckerEntry Us X (List.replicate d 0)))
   else
@@ -668,15 +684,17 @@ def nwayFactors : List (Option (Mat α)) → List (Mat α) → Except Err (List 
   | none :: Bs, X :: Xs => do let r ← nwayFactors Bs Xs; pure (X :: r)
   | some B :: Bs, X :: Xs => do let Y ← dotChecked B X; let r ← nwayFactors Bs Xs; pure (Y :: r)
 
-/-- `_modek_tensordot_sparse` (48-64) reshapes to `(nk, -1)`, which numpy refuses when `nk = 0` -/
+/-- before fix 5dd70f0 `_modek_tensordot_sparse` (48-64) reshaped to `(nk, -1)`, which numpy refuses
+when `nk = 0`; now the second dimension is explicit and nothing fails -/
 def sparseReshapeFails : List (Option (Mat α)) → List Nat → Bool
   | some _ :: Bs, n :: s => n = 0 || sparseReshapeFails Bs s
   | none :: Bs, _ :: s => sparseReshapeFails Bs s
   | _, _ => false
 
 mutual
-/-- `apply_tprod(ops, T)` (97-128 and the `nway_prod` methods).  `sparse` says that the
-operators are scipy sparse matrices (only the ndarray branch distinguishes the two). -/
+/-- `apply_tprod(ops, T)` (97-128 and the `nway_prod` methods).  `sparse = true` reproduces the
+ndarray branch for scipy sparse operators as coded before fix 5dd70f0 (negation witness only);
+the current code behaves identically for dense and sparse operators (`sparse = false`). -/
 def Ten.nway (sparse : Bool) : Ten α → List (Option (Mat α)) → Except Err (Ten α)
   | .full A, ops =>
       if sparse && sparseReshapeFails ops A.shape then .error .value
@@ -704,9 +722,9 @@ end
 def padMat (n b a : Nat) : Mat α := ⟨b + n + a, n, fun i j => if i = b + j then 1 else 0⟩
 
 /-- `pad(X, pad_width)` (237-258) -/
-def Ten.pad (T : Ten α) (pw : List (Option (Nat × Nat))) : Except Err (Ten α) :=
+def Ten.pad (T : Ten α) (pw : List (Option (Nat × Nat))) (asCoded : Bool := false) : Except Err (Ten α) :=
   if pw.length ≠ T.ndim then .error .assertion
-  else T.nway true ((pw.zip T.shape).map (fun p => p.1.map (fun ba => padMat p.2 ba.1 ba.2)))
+  else T.nway asCoded ((pw.zip T.shape).map (fun p => p.1.map (fun ba => padMat p.2 ba.1 ba.2)))
 
 /-- `TuckerTensor.truncate(k)` (929-937), `k` a tuple of non-negative ranks -/
 def Ten.truncate : Ten α → List Nat → Except Err (Ten α)
@@ -767,8 +785,8 @@ def COp.apply (A : COp α) (X : Ten α) : Except Err (Ten α) :=
   match A.terms with
   | [] => .error .type
   | t :: ts => do
-      let Y0 ← X.nway true (t.map some)
-      ts.foldlM (fun Y t' => do let Z ← X.nway true (t'.map some); Y.add Z) Y0
+      let Y0 ← X.nway false (t.map some)
+      ts.foldlM (fun Y t' => do let Z ← X.nway false (t'.map some); Y.add Z) Y0
 
 /-- `A[l0:l1, l0:l1]` -/
 def Mat.sliceSq (A : Mat α) (l0 l1 : Int) : Except Err (Mat α) := do
